@@ -222,7 +222,11 @@ func bulkEqualsClosedForm(n int, idbase uint64, base, step, d int64) bool {
 		}
 		rxt := base + int64(i)*step
 		rx := ntp.Time64FromTime(time.Unix(0, rxt))
-		tx := ntp.Time64FromTime(time.Unix(0, rxt+d))
+		txt := rxt + d
+		if !(rxt < txt) {
+			txt = rxt + 1 // the repaired handleRequest forces txt later than rxt
+		}
+		tx := ntp.Time64FromTime(time.Unix(0, txt))
 		if it.Len != 1 || len(it.Pairs) != 1 || it.Pairs[0].Rx != rx || it.Pairs[0].Tx != tx || it.Qval != rx || it.Qidx != i {
 			return false
 		}
